@@ -334,9 +334,9 @@ func (v *Verifier) intrinsic(fr *Frame, st *State, full string, fn *types.Func, 
 		return TupleVal{}, true
 	case "crypto/aes.NewCipher":
 		use()
+		// the cipher is a function of the key bytes (per key length); error iff the length is not 16/24/32
 		key := args[0].(SliceVal)
-		rows := v.eng.heapRows(st, byteSh, key.Ref)
-		id := c.App("ufAESKey", IntSort, rows[0], key.Off, key.Len)
+		id := v.aesKeyID(st, key)
 		okLen := c.Or(c.Eq(key.Len, v.idxConst(16)), c.Eq(key.Len, v.idxConst(24)), c.Eq(key.Len, v.idxConst(32)))
 		res := fn.Type().(*types.Signature).Results()
 		blk := OpaqueVal{Sh: v.eng.shapeOf(res.At(0).Type()), ID: id, Nil: c.Not(okLen)}
@@ -523,4 +523,29 @@ func (p *Prog) bindCuts(fi *FuncInfo) {
 			fi.CutErr = append(fi.CutErr, fmt.Sprintf("cut %d: anchor %q matches %d statements", cut.Ord, cut.Anchor, len(hits)))
 		}
 	}
+}
+
+// aesKeyID: the identity of the AES cipher for a key: an uninterpreted function of the key
+// bytes, one per key length (16/24/32); other lengths give an unrelated value.
+func (v *Verifier) aesKeyID(st *State, key SliceVal) *Term {
+	c := v.eng.C
+	byteSh := v.eng.shapeOf(types.Typ[types.Uint8])
+	row := v.eng.heapRows(st, byteSh, key.Ref)[0]
+	cat := func(n int) *Term {
+		var acc *Term
+		for i := 0; i < n; i++ {
+			b := c.Select(row, v.iAdd(key.Off, v.idxConst(int64(i))))
+			if acc == nil {
+				acc = b
+			} else {
+				acc = c.Concat(acc, b)
+			}
+		}
+		return acc
+	}
+	id16 := c.App("ufAESKey128", IntSort, cat(16))
+	id24 := c.App("ufAESKey192", IntSort, cat(24))
+	id32 := c.App("ufAESKey256", IntSort, cat(32))
+	other := c.App("ufAESKeyOther", IntSort, row, key.Off, key.Len)
+	return c.Ite(c.Eq(key.Len, v.idxConst(16)), id16, c.Ite(c.Eq(key.Len, v.idxConst(24)), id24, c.Ite(c.Eq(key.Len, v.idxConst(32)), id32, other)))
 }
